@@ -1,5 +1,6 @@
 From Coq Require Import Extraction ExtrOcamlBasic.
-From LCP Require Import Base.ExtractBase Base.CheckedMem Crypto.DrbgSpec Crypto.DrbgModel Crypto.DrbgRepo.
+From LCP Require Import Base.ExtractBase Base.CheckedMem Crypto.DrbgSpec Crypto.DrbgOsSpec Crypto.DrbgModel Crypto.DrbgOsModel Crypto.DrbgRepo.
 Extraction Language OCaml.
 Extraction "drbg.ml" force_number_types drbg_run drbg_spec_run entropy_read_fill_m
+  drbg_os_run drbg_os_spec_run entropy_read_w spec_session s_open s_reads s_closes
   dKey dV dctr dinst sK sV sctr.
